@@ -186,7 +186,7 @@ def bounded_fallback(prop, cfg, seed, reasons):
             rp = os.path.join(REPLAYS, "%s-bounded-%s.json" % (prop, twin.replace(".", "_")))
             rec = {"property": prop, "decided_by": "BOUNDED twin search (the deductive check was undecided)", "bounded": True,
                    "undecided_reasons": reasons, "obligation": ["executable twin of the contract disagrees with the real code"],
-                   "twin": twin, "input": v.get("input"), "observed": v.get("observed"), "expected": v.get("expected"),
+                   "twin": twin, "input": v.get("input"), "observed": v.get("observed", v.get("got")), "expected": v.get("expected"),
                    "replay_cmd": "./check %s --replay %s" % (prop, rp)}
             json.dump(rec, open(rp, "w"), indent=1)
             return (twin, rp)
@@ -405,7 +405,7 @@ def main(argv):
             rec = {"property": prop, "unit": u, "function": label, "obligation": kinds, "failed_cases": cases,
                    "verus_messages": [f["text"] for f in fl][:6], "twin": twin,
                    "input": found.get("input") if found else None,
-                   "observed": found.get("observed") if found else None,
+                   "observed": (found.get("observed", found.get("got"))) if found else None,
                    "expected": found.get("expected") if found else None,
                    "replay_cmd": "./check %s --replay %s" % (prop, rp)}
             if not ok:
